@@ -112,16 +112,20 @@ def mon_sound(j, tb, old_style):
     return bad
 
 
-def mon_complete(j, sev, a, b):
-    """(b): None if a diagnostic of severity `sev` has its first label on [a, b), else what is wrong"""
-    same = [d for d in j["diags"] if d[0] == sev]
+def mon_complete(j, sev, a, b, tb=None, stage=None):
+    """(b): None if a diagnostic of severity `sev` has its first label on [a, b), else what is wrong.
+    The `>>` deprecation notice (recognised by shape when the text `tb` is given) is never the
+    diagnostic of an invalid construct; `stage`: the diagnostic must also come from that stage."""
+    same = [d for d in j["diags"] if d[0] == sev and not (tb is not None and is_notice(d, tb))
+            and (stage is None or d[1] == stage)]
+    what = ("" if stage is None else "%s-stage " % stage) + ("error" if sev == "e" else "warning")
     if not same:
-        return "silently accepted: no %s diagnostic at all" % ("error" if sev == "e" else "warning")
+        return "silently accepted: no %s diagnostic at all" % what
     for d in same:
         if d[2] and cat.touches(d[2][0], a, b):
             return None
     return "misplaced: the %s diagnostics have primary labels %s, the construct is at bytes %d..%d" % (
-        "error" if sev == "e" else "warning", [d[2][0] if d[2] else None for d in same], a, b)
+        what, [d[2][0] if d[2] else None for d in same], a, b)
 
 
 def ev_diags(part):
@@ -421,7 +425,8 @@ def run(rep, tier, seed):
                 if not t.startswith(("lead=", "text-blocks-before=", "steps-before=", "sections-before=")):
                     pe["placements"].add(t)
                     placements[t] = placements.get(t, 0) + 1
-            v = mon_complete(j, c["sev"], c["a"], c["b"])
+            v = mon_complete(j, c["sev"], c["a"], c["b"], tb,
+                             en.stage if (en is not None and en.strict_stage) else None)
             if v is None:
                 pe["found"] += 1
                 counts["catalog_found"] += 1
@@ -588,7 +593,8 @@ def replay(rp):
     if kind in ("sound", "base"):
         bad += mon_sound(j, tb, r.get("old_style", True))
     elif kind in ("catalog", "double"):
-        v = mon_complete(j, r["sev"], r["a"], r["b"])
+        en = cat.BY_ID.get(r.get("entry"))
+        v = mon_complete(j, r["sev"], r["a"], r["b"], tb, en.stage if (en is not None and en.strict_stage) else None)
         if v:
             bad.append(v)
     p2 = subprocess.run([os.path.join(bindir, "events"), "-"], input="%s %s\n" % (r["input_hex"], r.get("ext", 0)),
